@@ -55,6 +55,7 @@ class Controller(object):
         self.finished = [False] * n
         self.blocked_on = [None] * n
         self.abort = False
+        self.muted = set()          # threads executing an unjudged call: no events, no voluntary yields
         self.steps = []             # (thread, kind) kind: 'e' event | 'b' blocked | 's' silent | 'f' finished
         self.runnable_hist = []     # runnable set at each decision (for enumeration)
         self.status = 'ok'          # ok | deadlock | hang | too-long
@@ -68,6 +69,14 @@ class Controller(object):
             return None
         if self.abort:
             raise Abort()
+        if t in self.muted:
+            return t
+        return self.wait(t)
+
+    def wait(self, t):
+        """unconditional yield (also used by a muted thread that must wait for a lock)"""
+        if self.abort:
+            raise Abort()
         self.back.release()
         self.go[t].acquire()
         if self.abort:
@@ -75,7 +84,7 @@ class Controller(object):
         return t
 
     def emit(self, ev):
-        if not self.abort:
+        if not self.abort and self.tids.get(threading.get_ident()) not in self.muted:
             self.log.append(tuple(ev))
 
     # ---- controller side ---------------------------------------------------------------------
@@ -138,7 +147,9 @@ class Controller(object):
                 d = len(self.log) - n0
                 if d > 1:
                     self.errors.append('more than one event in a step')
-                if self.finished[t] and d == 0:
+                if t in self.muted and d == 0:
+                    kind = 'm'
+                elif self.finished[t] and d == 0:
                     kind = 'f'
                 elif d >= 1:
                     kind = 'e'
@@ -195,6 +206,13 @@ class SLock(object):
             self.owner = 'main'
             return self
         while True:
+            if t in c.muted:
+                if self.owner is None:
+                    self.owner = t
+                    return self
+                c.blocked_on[t] = self      # an unjudged call waits for the lock like everybody else
+                c.wait(t)
+                continue
             if c.point() is None:
                 raise Abort()
             if self.owner is None:
